@@ -11,3 +11,4 @@ def run(ck):
     matrix.r4_wide_products(ck, P)
     matrix.r5_rounding_siblings(ck, P)
     matrix.r6_float_to_fixed_guarded(ck, P)
+    matrix.r7_whole_w_tested(ck, P)
